@@ -1,4 +1,9 @@
-"""Constants of the handshake (C06) re-extracted from /repo on every run into coq/C06/ParamsGen.v."""
+"""Constants of the handshake (C06). The values that enter the model and params_ok_now are PROBED from
+the compiled code (harness/c06.cc --params -> coq/C06/ParamsProbe.v, written by props/c06.py), so a
+refactor of the source text cannot break the obligation (ROBUSTNESS rule 3). ENTRIES (regex on the
+source, feeding coq/C06/ParamsGen.v, no longer imported by anything) is therefore empty; CROSSCHECK
+keeps the anchored regexes as an optional cross-check: one that matches and disagrees with the
+probe is noted in the evidence, one that does not match is ignored."""
 import re
 
 H = "src/protocol/handshake.h"
@@ -54,7 +59,7 @@ def _prime(m):
     return "[" + ";".join("%d%%N" % v for v in vals) + "]"
 
 
-ENTRIES = [
+CROSSCHECK = [
     ("c06_part1_size", H, r"static constexpr uint32_t part1_size\s*=\s*([^;]+);", "nat", _c("part1_size")),
     ("c06_part2_size", H, r"static constexpr uint32_t part2_size\s*=\s*([^;]+);", "nat", _c("part2_size")),
     ("c06_handshake_size", H, r"static constexpr uint32_t handshake_size\s*=\s*([^;]+);", "nat", _c("handshake_size")),
@@ -71,3 +76,5 @@ ENTRIES = [
     ("c06_ext_max_len", "src/protocol/extensions.cc", r"type >= FIRST_INVALID\) \|\| length > (\(1 << \d+\))", "N"),
     ("c06_dh_prime", "src/protocol/handshake_encryption.cc", r"dh_prime\[\] = \{(.*?)\};", "list N", _prime),
 ]
+
+ENTRIES = []
